@@ -358,10 +358,11 @@ mut('c07-update-keyed-without-bus', 'C07', ['C07.5'], M,
     'result records keyed without the bus')
 
 # ================================================================================================ C08
-mut('c08-pending-overwrite', 'C08', ['C08.1'], S,
+neutral('n9-redundant-pending-guard', S,
     "            if handler_id not in event.event_results:\n                event.event_result_update(\n",
     "            if True:\n                event.event_result_update(\n",
-    "re-processing resets existing results to 'pending'")
+    "was mutant c08-pending-overwrite until round 9: the guard is redundant — process_event pre-creates results only for the handlers _get_applicable_handlers has just selected, and the "
+    "selection leaves out every handler that already has a result (C08.7 evaluates that over the result states); a maintenance history (T-7-1) removed the guard for that reason")
 mut('c08-cancel-overwrites', 'C08', ['C08.1'], M,
     "                if result.status == 'pending':\n", "                if result.status != 'completed':\n",
     'child cancellation overwrites started/error results')
